@@ -231,10 +231,10 @@ var mergeUnit = ev.Unit[MergeCase]{
 	Name: "merge-order",
 	Rule: "object document x object merge patch obtained by mutating the document (shared names, deletions, additions, recursion, type changes); oracle: value = RFC 7396 result with number literals intact, and at every object present in both document and output the surviving members keep document order ahead of new ones (order among new members is unspecified); non-trivial = an object with >=2 surviving members also gains or loses a member, or an exotic number survives",
 	Draw: func(t *rapid.T) MergeCase {
-		doc := gen.Default.Object(3).Draw(t, "doc")
-		patch := gen.Default.Mutate(t, doc, 2)
+		doc := gen.WithEmptyName.Object(3).Draw(t, "doc")
+		patch := gen.WithEmptyName.Mutate(t, doc, 2)
 		if gen.OneIn(t, 5, "indep") {
-			patch = gen.Default.Object(3).Draw(t, "ipatch")
+			patch = gen.WithEmptyName.Object(3).Draw(t, "ipatch")
 		}
 		dt, pt := gen.Texts(t, doc, patch, false, "sp")
 		return MergeCase{Doc: dt, Patch: pt}
